@@ -16,9 +16,10 @@ func checkC20(e *Engine, r *Report) {
 	r.Rules = []string{
 		"R13 affine-interval abstract interpretation of decode∘encode (all requests at once, no execution): SharesToMilliCPU(MilliCPUToShares(m)) - m ∈ [-1, 1] for every m in 0..256000, within 2 where the encoder hit the minimum-shares floor, and = 0 for every multiple of 125; QuotaToMilliCPU(MilliCPUToQuota(m)) = m for every m in 10..256000",
 		"R13 monotone reconstruction: SharesToMilliCPU (over MinShares..MaxShares) and QuotaToMilliCPU (in the quota, default period) are compositions of monotone non-decreasing operations; their constant special case sits at the lower end of the domain and does not exceed the least regular value",
+		"R13 estimate entries map back: every (adj ↦ req) stored into the OOM estimate table satisfies adj = MemReqToOomAdj(req) by construction (paired loop-carried values, checked coinductively), the reader indexes with its own argument, and the table is rebuilt from the capacity MemReqToOomAdj uses",
 		"R9 wiring: the cache's conversion variables are bound to the pkg/kubernetes functions and never reassigned; estimateResourceRequirements derives the CPU request from SharesToMilliCPU(cpu shares), the CPU limit from QuotaToMilliCPU(cpu quota, cpu period) in that argument order (a Guaranteed container's limit is its request), and the Burstable memory request from OomAdjToMemReq(oom adjustment, memory limit)",
 	}
-	r.NotDecided = []string{"that the OOM-adjustment estimate table can be built for every capacity >= 1 MiB and maps back to the same adjustment (a search loop over run-time values; outside the affine domain)", "float64 rounding beyond the stated slack of 1e-6 per operation (values stay below 2^53)", "QuotaToMilliCPU monotonicity for periods other than the default"}
+	r.NotDecided = []string{"that the OOM-adjustment estimate table can be built without panicking, and has an entry for every Burstable adjustment, for every capacity >= 1 MiB (a search loop over run-time values; outside the affine domain) — decided only: every entry that IS stored maps back to its adjustment", "float64 rounding beyond the stated slack of 1e-6 per operation (values stay below 2^53)", "QuotaToMilliCPU monotonicity for periods other than the default"}
 	r.Assumptions = []string{"requests range over 0..256000 mCPU as stated by the property", "float64 division and addition are correctly rounded (IEEE 754)"}
 
 	enc := r.Anchor(pkgKube, "MilliCPUToShares")
@@ -196,6 +197,97 @@ func checkC20(e *Engine, r *Report) {
 	mono("R13:shares-decode-monotone", "SharesToMilliCPU is monotone over MinShares..MaxShares", dec, []aval{aident()}, actx{mLo: minShares, mHi: maxShares, q: rat(1)})
 	mono("R13:quota-decode-monotone", "QuotaToMilliCPU is monotone in the quota (default period)", decQ, []aval{aident(), aconst(quotaPeriod)},
 		actx{mLo: rat(0), mHi: new(big.Rat).Mul(maxM, rat(100)), q: rat(1)})
+
+	// ---- memory-request estimates map back ------------------------------------------------------------
+	// Every entry the estimate table receives is a pair (adj, req) with adj = MemReqToOomAdj(req) by construction:
+	// key and value are either the literal call and its argument, or loop-carried values whose every incoming pair
+	// satisfies the same relation (a paired-phi invariant, checked coinductively). The reader indexes the table with
+	// the adjustment it was given. So an estimate, where one exists, maps back to the same adjustment.
+	if calc, toAdj, reader, setCap := r.Anchor(pkgKube, "CalculateOomAdjToMemReqEstimates"), r.Anchor(pkgKube, "MemReqToOomAdj"), r.Anchor(pkgKube, "OomAdjToMemReq"), r.Anchor(pkgKube, "SetMemoryCapacity"); calc != nil && toAdj != nil && reader != nil && setCap != nil {
+		gCap := e.Global(pkgKube, "memCapacity")
+		gTab := e.Global(pkgKube, "oomAdjToMemReqEstimates")
+		// the map that is returned
+		var table ssa.Value
+		for _, ret := range Returns(calc) {
+			table = ret.Results[0]
+		}
+		type pr struct{ k, v ssa.Value }
+		var pairOK func(k, v ssa.Value, seen map[pr]bool) bool
+		pairOK = func(k, v ssa.Value, seen map[pr]bool) bool {
+			if seen[pr{k, v}] {
+				return true // coinductive hypothesis
+			}
+			seen[pr{k, v}] = true
+			if c, ok := k.(*ssa.Call); ok && c.Common().StaticCallee() == toAdj {
+				return c.Common().Args[0] == v
+			}
+			pk, ok1 := k.(*ssa.Phi)
+			pv, ok2 := v.(*ssa.Phi)
+			if ok1 && ok2 && pk.Block() == pv.Block() {
+				for i := range pk.Edges {
+					if !pairOK(pk.Edges[i], pv.Edges[i], seen) {
+						return false
+					}
+				}
+				return true
+			}
+			// the two boundary entries: 1000 ↦ 0 and 0 ↦ capacity
+			if kk, ok := constIntVal(k); ok {
+				if vv, ok := constIntVal(v); ok && vv == 0 {
+					return kk == 1000
+				}
+				if u, ok := v.(*ssa.UnOp); ok && u.X == ssa.Value(gCap) {
+					return kk == 0
+				}
+			}
+			return false
+		}
+		nEnt := 0
+		AllInstrsOf(calc, func(in ssa.Instruction) {
+			mu, ok := in.(*ssa.MapUpdate)
+			if !ok || mu.Map != table {
+				return
+			}
+			nEnt++
+			r.Check("R13:oom-table-entry-maps-back", "R13 round trip", "every entry (adj ↦ req) put into the estimate table satisfies adj = MemReqToOomAdj(req) by construction, so an estimated request maps back to the adjustment it was looked up with", e.InstrPos(in), calc,
+				pairOK(mu.Key, mu.Value, map[pr]bool{}), "", true)
+		})
+		r.MinInstances("entries stored into the estimate table", nEnt, 2)
+		// the reader: table[adj] with the adj it was given, from the global the builder's result is stored in
+		okRead := false
+		AllInstrsOf(reader, func(in ssa.Instruction) {
+			if lk, ok := in.(*ssa.Lookup); ok && paramIndex(lk.Index) == 0 {
+				if u, ok := lk.X.(*ssa.UnOp); ok && u.X == ssa.Value(gTab) {
+					okRead = true
+				}
+			}
+		})
+		r.Check("R13:oom-table-read-by-own-adj", "R13 round trip", "OomAdjToMemReq looks the estimate up under the adjustment it was given", e.Pos(reader.Pos()), reader, okRead && gTab != nil, "", true)
+		// the table is (re)built from the capacity MemReqToOomAdj uses: SetMemoryCapacity stores the capacity before building, and is the only writer of both
+		var stCap, stTab ssa.Instruction
+		AllInstrsOf(setCap, func(in ssa.Instruction) {
+			if st, ok := in.(*ssa.Store); ok {
+				if st.Addr == ssa.Value(gCap) {
+					stCap = in
+				}
+				if st.Addr == ssa.Value(gTab) {
+					if c, ok := st.Val.(*ssa.Call); ok && c.Common().StaticCallee() == calc {
+						stTab = in
+					}
+				}
+			}
+		})
+		okOrder := stCap != nil && stTab != nil && dominatesInstr(stCap, stTab.(*ssa.Store).Val.(*ssa.Call))
+		writers := 0
+		for _, fn := range e.RepoFuncs {
+			AllInstrsOf(fn, func(in ssa.Instruction) {
+				if st, ok := in.(*ssa.Store); ok && (st.Addr == ssa.Value(gCap) || st.Addr == ssa.Value(gTab)) && fn != setCap {
+					writers++
+				}
+			})
+		}
+		r.Check("R13:oom-table-built-for-current-capacity", "R13 round trip", "the estimate table is rebuilt whenever the capacity changes and from that capacity (SetMemoryCapacity is the only writer of both and stores the capacity first)", e.Pos(setCap.Pos()), setCap, okOrder && writers == 0, fmt.Sprintf("%d other writers", writers), true)
+	}
 
 	// ---- wiring ------------------------------------------------------------------------------------------
 	est := r.Anchor(pkgCA, "estimateResourceRequirements")
